@@ -25,18 +25,18 @@ type Msg struct {
 
 // WorkerStats is what a worker measured.
 type WorkerStats struct {
-	Generated   int64             `json:"generated"` // cases enumerated (all shards)
-	Evals       int64             `json:"evals"`
-	Skips       map[string]int64  `json:"skips"`
-	Classes     map[string]int64  `json:"classes"`
-	Nontrivial  int64             `json:"nontrivial"`
-	States      int64             `json:"states"`
-	Transitions int64             `json:"transitions"`
-	Validated   int64             `json:"validated"`
-	Violations  int64             `json:"violations"`
-	Truncated   bool              `json:"truncated"`
-	LastIndex   int64             `json:"last_index"`
-	Samples     []json.RawMessage `json:"samples"`
+	Generated   int64                      `json:"generated"` // cases enumerated (all shards)
+	Evals       int64                      `json:"evals"`
+	Skips       map[string]int64           `json:"skips"`
+	Classes     map[string]int64           `json:"classes"`
+	Nontrivial  int64                      `json:"nontrivial"`
+	States      int64                      `json:"states"`
+	Transitions int64                      `json:"transitions"`
+	Validated   int64                      `json:"validated"`
+	Violations  int64                      `json:"violations"`
+	Truncated   bool                       `json:"truncated"`
+	LastIndex   int64                      `json:"last_index"`
+	Samples     []json.RawMessage          `json:"samples"`
 	ClassSample map[string]json.RawMessage `json:"class_sample"`
 	ViolByKey   map[string]int64           `json:"viol_by_key"`
 }
